@@ -42,9 +42,13 @@ class _SpyIter:
 
     def product(self, *its: typing.Any) -> typing.Any:
         lists = [list(i) for i in its]
+        total = 1
         for l in lists:
             if len(l) > MAX_DIVISOR:
                 raise WorkGrows("product over an operand of %d residues" % len(l))
+            total *= len(l)
+        if total > MAX_DIVISOR ** 2:
+            raise WorkGrows("a product of residue sets with %d combinations (pairwise aggregation bounds it by divisor**2)" % total)
         return self._count(self._real.product(*lists))
 
     def combinations_with_replacement(self, it: typing.Any, r: typing.Any) -> typing.Any:
@@ -110,6 +114,8 @@ SHAPES = {
     "delimited": ["struct", ["u3", ["delim", ["struct", ["u8"]], "n8"], ["varr", ["delim", ["struct", ["u8"]], "n8"], "m"], "u8"]],
     "farr-composite": ["struct", [["farr", ["struct", ["u3", "u8"]], "n"], "u7"]],
     "mixed": ["struct", [["varr", "u3", "n"], "u5", ["varr", ["struct", ["bool"]], "n"], ["farr", "u24", "m"]]],
+    "many-subbyte": ["struct", [["varr", "bool", "n"], ["varr", "u3", "n"], ["varr", "u5", "m"], ["varr", "u7", "n"],
+                                ["varr", "bool", "m"], ["varr", "u3", "m"], "u5"]],
 }
 LADDER = [2, 2 ** 8 - 1, 2 ** 8, 2 ** 16 + 1, 2 ** 32 - 1, 2 ** 32, 2 ** 40 + 7, 2 ** 63]
 
